@@ -103,7 +103,10 @@ ENTRY int verif_stash(unsigned n, const long* ids, unsigned ulen0, unsigned mask
     osmium::ItemStash::handle_type h[8];
     for (unsigned i = 0; i < n; ++i) { make_node(tmp, ids[i], ulen0 + 3 * i); h[i] = stash.add_item(tmp.get<memory::Item>(0)); }
     for (unsigned i = 0; i < n; ++i) if (mask1 & (1U << i)) stash.remove_item(h[i]);
-    if (gc1) stash.garbage_collect();
+    if (gc1 == 1) stash.garbage_collect();
+    // gc1 == 2: let add_item() collect by itself: should_gc() only looks at counters, so the removal counter is raised past its
+    // threshold (an over-approximated pre-state: the real trigger needs >= 10000 removed items)
+    if (gc1 == 2) stash.m_count_removed += 6000000UL;
     make_node(tmp, ids[n], ulen0 + 1); h[n] = stash.add_item(tmp.get<memory::Item>(0));
     for (unsigned i = 0; i <= n; ++i) if ((mask2 & (1U << i)) && !(mask1 & (1U << i))) stash.remove_item(h[i]);
     if (gc2) stash.garbage_collect();
